@@ -200,7 +200,7 @@ func captureStdout(path string, f func()) (string, error) {
 func runC13(c *run.Ctx) {
 	user := ref.UserFuns()
 	opt := ref.GenOpt{MaxDepth: 4, PFail: 0.05, PSugar: 0.6, PBoundary: 0.1, PGroup: 0.03, UserFuns: true, AllowPrint: true, NoTime: true}
-	nh := c.Pick(320, 10000)
+	nh := c.Pick(320, 30000)
 	for h := 0; h < nh; h++ {
 		if !c.Mine(h) {
 			continue
@@ -373,7 +373,7 @@ func runC13(c *run.Ctx) {
 		})
 	}
 	// exact stdout accounting on a single-engine, baseline-free history
-	for h := 0; h < c.Pick(200, 5000); h++ {
+	for h := 0; h < c.Pick(200, 20000); h++ {
 		if !c.Mine(h) {
 			continue
 		}
